@@ -209,7 +209,7 @@ def random_formula(rnd, depth, names):
 
 def bounds(tier):
     return dict(exhaustive_formulas=len(exhaustive_formulas()), orders=6 if tier == 'thorough' else 2,
-                random_formulas=600 if tier == 'quick' else 20000, roundtrip_functions='256 (3 vars) + sampled 4 vars')
+                random_formulas=600 if tier == 'quick' else 20000 * DEEP, roundtrip_functions='256 (3 vars) + sampled 4 vars')
 
 
 def chunks(tier, seed):
@@ -223,15 +223,15 @@ def chunks(tier, seed):
         for auto in (0, 1):
             for k in range(0, len(forms), 200):
                 out.append(('case_formulas', [dict(order=list(o), auto=auto, forms=forms[k:k + 200])]))
-    n = 600 if tier == 'quick' else 20000
+    n = 600 if tier == 'quick' else 20000 * DEEP
     for k in range(0, n, 100):
         out.append(('case_random', [dict(seed=seed * 8191 + k, count=100)]))
     for o in orders:
         out.append(('case_roundtrip', [dict(order=list(o), seed=seed)]))
     out.append(('case_roundtrip4', [dict(seed=seed + k, count=100) for k in range(2 if tier == 'quick' else 30)]))
-    out.append(('case_roundtrip_after_undeclare', [dict(seed=seed + k) for k in range(20 if tier == 'quick' else 300)]))
+    out.append(('case_roundtrip_after_undeclare', [dict(seed=seed + k) for k in range(20 if tier == 'quick' else 300 * DEEP)]))
     out.append(('case_doc_grammar', [dict(kind='lowercase-constant'), dict(kind='dotted-name')]))
-    out.append(('case_two_managers', [dict(seed=seed + k) for k in range(10 if tier == 'quick' else 200)]))
+    out.append(('case_two_managers', [dict(seed=seed + k) for k in range(10 if tier == 'quick' else 200 * DEEP)]))
     return out
 
 
